@@ -901,4 +901,6 @@ func (L strLib) unescapeRefs(s *Str, table map[string]byte) *Str {
 }
 
 // the references the engine under test and the formatter can emit
-var basicRefs = map[string]byte{"amp;": '&', "lt;": '<', "gt;": '>', "quot;": '"', "#34;": '"', "#39;": '\'', "#13;": '\r'}
+// (and the legacy spellings without a semicolon, which parsers accept too)
+var basicRefs = map[string]byte{"amp;": '&', "lt;": '<', "gt;": '>', "quot;": '"', "#34;": '"', "#39;": '\'', "#13;": '\r',
+	"amp": '&', "lt": '<', "gt": '>', "quot": '"'}
